@@ -41,6 +41,72 @@ def build_chained(w):
         ensures=['forall(Ty, str, lambda c, f: ((c, f) in result) == (%s))' % ' or '.join('(c, f) in %s' % X(l) for l in L),
                  'forall(Ty, str, Obj, lambda c, f, r: implies((c, f) in result, (r in result[(c, f)]) == (%s)))' % ' or '.join('((c, f) in %s and r in %s[(c, f)])' % (X(l), X(l)) for l in L)])
 
+    # R6  persistence and routing of the stack's mutators: every mutator returns a NEW ChainedSchema and writes no field of an existing one (earlier versions stay frozen:
+    #     stated for `self` and for one arbitrary other stack `g_other` that existed before); the std layer (_base_schema) is handed on unchanged, never written to;
+    #     a global object's change goes to the global layer only, any other change to the top layer only (the other layer is handed on by identity).
+    w.refclass('CObj', {'id': 'Obj', 'is_global_object': 'bool'}, universal=True); w.ufunc('ISGLOB', ['Ty'], 'bool')
+    w.ufunc('TYPEOF', ['CObj'], 'Ty')
+    XI = {'issubclass': dict(params={'c': 'Ty', 'base': 'Obj'}, returns='bool', returns_expr='ISGLOB(c)'), 'type': dict(params={'o': 'CObj'}, returns='Ty', returns_expr='TYPEOF(o)')}
+    w.classes['Layer']['_id_to_data'] = 'Map[Obj,Obj]'
+    w.contract(SCH, 'ChainedSchema.__init__', params={'self': 'CSch', 'base_schema': 'Layer', 'top_schema': 'Layer', 'global_schema': 'Layer'}, returns='none', inline=True)
+    OPS = {'add_raw': ({'id': 'Obj', 'sclass': 'Ty', 'data': 'Obj'}, 'ISGLOB(sclass)'),
+           'add': ({'id': 'Obj', 'sclass': 'Ty', 'data': 'Obj'}, 'ISGLOB(sclass)'),
+           'discard': ({'obj': 'CObj'}, 'isinstance(obj, so.GlobalObject)'), 'delete': ({'obj': 'CObj'}, 'isinstance(obj, so.GlobalObject)'),
+           'set_obj_field': ({'obj': 'CObj', 'fieldname': 'str', 'value': 'Obj'}, 'isinstance(obj, so.GlobalObject)'),
+           'unset_obj_field': ({'obj': 'CObj', 'field': 'str'}, 'isinstance(obj, so.GlobalObject)'),
+           'update_obj': ({'obj': 'CObj', 'updates': 'Obj'}, 'isinstance(obj, so.GlobalObject)'),
+           'delist': ({'name': 'Obj'}, 'False')}
+    FROZEN = lambda o: ' and '.join('%s.%s == old(%s.%s)' % (o, f, o, f) for f in ('_base_schema', '_top_schema', '_global_schema'))
+    for op, (ps, isglob) in OPS.items():
+        args = ', '.join(ps)
+        w.ufunc('L_' + op, ['Layer'] + list(ps.values()), 'Layer')
+        w.ext_methods['Layer.' + op] = dict(params=dict(ps), returns='Layer', returns_expr='L_%s(self, %s)' % (op, args), raises={'SchemaError': {}})
+        top_after = 'L_%s(self._top_schema, %s)' % (op, args)
+        extra = []
+        if op == 'update_obj':      # copy-on-write from the std layer: the object's data is first copied into the top layer when only the std layer has it
+            COW = 'not is_none(BYID(self._base_schema, obj.id)) and not HAS(self._top_schema, obj.id)'
+            extra = ['implies(not (%s) and not (%s), result._top_schema == L_update_obj(self._top_schema, obj, updates))' % (isglob, COW),
+                     'implies(not (%s) and (%s), result._top_schema == L_update_obj(L_add_raw(self._top_schema, obj.id, TYPEOF(some(BYID(self._base_schema, obj.id))), '
+                     'self._base_schema._id_to_data[obj.id]), obj, updates))' % (isglob, COW)]
+        w.contract(SCH, 'ChainedSchema.' + op, params=dict({'self': 'CSch'}, **ps), returns='CSch', ghost={'g_other': 'CSch'},
+            # type invariant of schema objects (class attribute set in Object / GlobalObject only -- AST obligation scan/is_global_object): the two ways of asking agree
+            requires=(['obj.is_global_object == isinstance(obj, so.GlobalObject)'] if 'obj' in ps else []),
+            modifies=['$alloc', 'CSch._base_schema', 'CSch._top_schema', 'CSch._global_schema'],
+            ensures=['not old(allocated(result))', FROZEN('self'), FROZEN('g_other'),
+                     'result._base_schema == self._base_schema',
+                     'implies(%s, result._top_schema == self._top_schema and result._global_schema == L_%s(self._global_schema, %s))' % (isglob, op, args),
+                     'implies(not (%s), result._global_schema == self._global_schema)' % isglob] +
+                    (['implies(not (%s), result._top_schema == (%s))' % (isglob, top_after)] if op != 'update_obj' else extra),
+            raises={'SchemaError': dict(ensures=[FROZEN('self'), FROZEN('g_other')]), 'KeyError': dict(ensures=[FROZEN('self'), FROZEN('g_other')])},
+            hints={'ext_funcs': XI})
+    w.ufunc('BYID', ['Layer', 'Obj'], 'Opt[CObj]'); w.ufunc('HAS', ['Layer', 'Obj'], 'bool')
+    w.ext_methods['Layer.get_by_id'] = dict(params={'id': 'Obj', 'default': 'none'}, returns='Opt[CObj]', returns_expr='BYID(self, id)')
+    w.ext_methods['Layer.has_object'] = dict(params={'id': 'Obj'}, returns='bool', returns_expr='HAS(self, id)')
+
+    # R7  lookups on the stack: an object is found iff some layer has it, the top layer shadows the std layer (copy-on-write of update_obj relies on it), global objects live in
+    #     the global layer; has_object agrees with get_by_id given the per-layer agreement HAS(l, id) == (BYIDT(l, id, None) is not None) (assumed of FlatSchema)
+    w.ufunc('BYIDT', ['Layer', 'Obj', 'Opt[Ty]'], 'Opt[CObj]'); w.ufunc('GLOBT', ['Layer', 'Ty', 'Obj'], 'Opt[CObj]')
+    XL = {'Layer.get_by_id': dict(params={'id': 'Obj', 'type': 'Opt[Ty]', 'default': 'Opt[CObj]'}, returns='Opt[CObj]',
+                                  ensures=['result == (BYIDT(self, id, type) if not is_none(BYIDT(self, id, type)) else default)'], raises={'InvalidReferenceError': dict(ensures=['is_none(BYIDT(self, id, type))'])}),
+          'Layer.get_global': dict(params={'objtype': 'Ty', 'name': 'Obj', 'default': 'Opt[CObj]'}, returns='Opt[CObj]',
+                                   ensures=['result == (GLOBT(self, objtype, name) if not is_none(GLOBT(self, objtype, name)) else default)'], raises={'InvalidReferenceError': {}})}
+    XL.update(XI); w.ext_methods['Layer.get_global'] = XL['Layer.get_global']
+    B = lambda l: 'BYIDT(self.%s, obj_id, type)' % l
+    w.contract(SCH, 'ChainedSchema._get_by_id', params={'self': 'CSch', 'obj_id': 'Obj', 'default': 'Opt[CObj]', 'type': 'Opt[Ty]'}, returns='Opt[CObj]',
+        ensures=['implies(not is_none(%s), result == %s)' % (B('_top_schema'), B('_top_schema')),
+                 'implies(is_none(%s) and not is_none(%s), result == %s)' % (B('_top_schema'), B('_base_schema'), B('_base_schema')),
+                 'implies(is_none(%s) and is_none(%s) and not is_none(%s), result == %s)' % (B('_top_schema'), B('_base_schema'), B('_global_schema'), B('_global_schema')),
+                 'implies(is_none(%s) and is_none(%s) and is_none(%s), result == default)' % (B('_top_schema'), B('_base_schema'), B('_global_schema'))],
+        raises={'InvalidReferenceError': {}}, hints={'ext_funcs': XL})
+    w.contract(SCH, 'ChainedSchema.has_object', params={'self': 'CSch', 'object_id': 'Obj'}, returns='bool',
+        ensures=['result == (HAS(self._base_schema, object_id) or HAS(self._top_schema, object_id) or HAS(self._global_schema, object_id))'])
+    G = lambda l: 'GLOBT(self.%s, objtype, name)' % l
+    w.contract(SCH, 'ChainedSchema._get_global', params={'self': 'CSch', 'objtype': 'Ty', 'name': 'Obj', 'default': 'Opt[CObj]'}, returns='Opt[CObj]',
+        ensures=['implies(ISGLOB(objtype), result == (%s if not is_none(%s) else default))' % (G('_global_schema'), G('_global_schema')),
+                 'implies(not ISGLOB(objtype) and not is_none(%s), result == %s)' % (G('_top_schema'), G('_top_schema')),
+                 'implies(not ISGLOB(objtype) and is_none(%s), result == (%s if not is_none(%s) else default))' % (G('_top_schema'), G('_base_schema'), G('_base_schema'))],
+        raises={'InvalidReferenceError': {}}, hints={'ext_funcs': XL})
+
 def build():
     w = World('C04')
     w.any('Id'); w.any('TName'); w.any('FName')      # field names are opaque (no string theory in the 4-place quantifiers); the literal 'name' is one fixed FName
@@ -275,6 +341,25 @@ def extra_obligations(w, tier, seed):
     out.append(dict(id='scan/index-writers', kind='ownership', tag='auxiliary', paths=1, status='discharged' if ok else 'failed', backend='ast-scan', seconds=0.0,
                     clause='within FlatSchema, _refs_to / _id_to_data / _id_to_type are only ever written (assignment or _replace(refs_to= / id_to_data= / id_to_type= / **updates)) by functions under contract',
                     model=None if ok else {'offending_source_location': bad}, where='%s: %s' % (SCH, bad), function='ast-scan'))
+    # type invariant used as a precondition by the ChainedSchema contracts: `is_global_object` is a class attribute, False in Object and True in GlobalObject, assigned nowhere else
+    OBJ = 'edb/schema/objects.py'
+    assigns = []
+    for rel in sorted(os.listdir(os.path.join(repo.REPO, 'edb/schema'))):
+        if not rel.endswith('.py'): continue
+        tree = ast.parse(open(os.path.join(repo.REPO, 'edb/schema', rel), encoding='utf-8').read())
+        for cls_ in [n for n in ast.walk(tree) if isinstance(n, ast.ClassDef)]:
+            for st in cls_.body:
+                if isinstance(st, (ast.Assign, ast.AnnAssign)):
+                    tg = st.targets if isinstance(st, ast.Assign) else [st.target]
+                    if any(isinstance(t, ast.Name) and t.id == 'is_global_object' for t in tg): assigns.append((rel, cls_.name, ast.unparse(st.value) if st.value is not None else None))
+        for n in ast.walk(tree):
+            if isinstance(n, (ast.Assign, ast.AugAssign)):
+                tg = n.targets if isinstance(n, ast.Assign) else [n.target]
+                if any(isinstance(t, ast.Attribute) and t.attr == 'is_global_object' for t in tg): assigns.append((rel, '<attribute store line %d>' % n.lineno, None))
+    ok = sorted(assigns) == [('objects.py', 'GlobalObject', 'True'), ('objects.py', 'Object', 'False')]
+    out.append(dict(id='scan/is_global_object', kind='ownership', tag='auxiliary', paths=1, status='discharged' if ok else 'unknown', backend='ast-scan', seconds=0.0,
+                    clause='edb/schema: is_global_object is a class attribute set to False in Object and True in GlobalObject and assigned nowhere else (so obj.is_global_object == isinstance(obj, GlobalObject))',
+                    model=None if ok else {'offending_source_location': assigns}, where='%s' % (assigns,), function='ast-scan'))
     return out
 
 def scenarios(tier, seed, repo_root, outdir):
